@@ -15,7 +15,8 @@ func ZzC17() {
 	ctx := context.Background()
 	K := zz.Param("K", 4)
 	withDeleter := zz.Param("DELETER", 0) == 1
-	cfg := zzCfgsQuick[zz.Choice("cfg", len(zzCfgsQuick))]
+	cfgIdx := []int{0, 3, 1, 2} // batch 1 / plain first, then batch 64 / context-aware, ...
+	cfg := zzCfgsQuick[cfgIdx[zz.Choice("cfg", zz.Param("CFGS", 4))]]
 	d := zzNewMemDS()
 	s := zzOpen(d, cfg)
 	chain := zzChain(cfg.base, K+2)
@@ -32,6 +33,9 @@ func ZzC17() {
 		return run{i, j}
 	}
 	runs := []run{pick("w0"), pick("w1")}
+	if zz.Param("WRITERS", 2) == 1 {
+		runs = runs[:1]
+	}
 	finished := 0
 	for w := range runs {
 		r := runs[w]
@@ -50,10 +54,16 @@ func ZzC17() {
 		}()
 	}
 	deleted := false
+	delWhole := withDeleter && zz.Bool("deleter.whole")
 	if withDeleter {
 		go func() {
 			zz.Gate("deleter:start")
-			err := s.DeleteRange(ctx, chain[0].H, chain[1].H) // removes the tail header only
+			to := chain[1].H // removes the tail header only
+			if delWhole {
+				// everything that was stored when the deleter looked: races with the appends at the head
+				to = chain[1].H + 1
+			}
+			err := s.DeleteRange(ctx, chain[0].H, to)
 			zz.Assert(err == nil, "tail-side DeleteRange succeeds while writers append at the head")
 			deleted = err == nil
 			finished++
@@ -65,6 +75,9 @@ func ZzC17() {
 	for o := 0; o < nobs; o++ {
 		zz.Gate("reader:obs")
 		head, err := s.Head(ctx)
+		if delWhole && err != nil {
+			continue // the deleter may legitimately have emptied the store for a moment
+		}
 		zz.Assert(err == nil, "Head of an initialised store")
 		if err != nil {
 			break
@@ -73,16 +86,18 @@ func ZzC17() {
 		zz.Assert(head.H >= lastHead, "Head().Height() never decreases")
 		zz.Assert(h >= lastHeight, "Height() never decreases")
 		lastHead, lastHeight = head.H, h
-		g, err := s.GetByHeight(ctx, head.H)
-		zz.Assert(err == nil && g != nil && g.H == head.H, "the header returned by Head() is retrievable by height")
-		g2, err := s.Get(ctx, head.Hash())
-		zz.Assert(err == nil && g2 != nil && bytes.Equal(g2.Hash(), head.Hash()), "the header returned by Head() is retrievable by hash")
+		if !delWhole { // a deletion that removes the head itself necessarily races with readers of that head
+			g, err := s.GetByHeight(ctx, head.H)
+			zz.Assert(err == nil && g != nil && g.H == head.H, "the header returned by Head() is retrievable by height")
+			g2, err := s.Get(ctx, head.Hash())
+			zz.Assert(err == nil && g2 != nil && bytes.Equal(g2.Hash(), head.Hash()), "the header returned by Head() is retrievable by hash")
+		}
 		zz.Reach("observed")
 	}
 	zz.Quiesce()
-	want := 2
+	want := len(runs)
 	if withDeleter {
-		want = 3
+		want++
 	}
 	zz.Assert(finished == want, "all writers (and the deleter) finish")
 	d.gates = false
@@ -98,13 +113,29 @@ func ZzC17() {
 	zz.Assert(s2.Sync(ctx) == nil, "Sync ok")
 	h1, e1 := s.Head(ctx)
 	h2, e2 := s2.Head(ctx)
-	zz.Assert(e1 == nil && e2 == nil && h1.H == h2.H, "after all writers finish Head equals that of a sequential execution")
-	for k := 2; k < K+2; k++ {
-		_, ea := s.Get(ctx, chain[k].Hash())
-		_, eb := s2.Get(ctx, chain[k].Hash())
-		zz.Assert((ea == nil) == (eb == nil), "after all writers finish the stored headers equal those of a sequential execution")
+	if !delWhole {
+		zz.Assert(e1 == nil && e2 == nil && h1.H == h2.H, "after all writers finish Head equals that of a sequential execution")
+		for k := 2; k < K+2; k++ {
+			_, ea := s.Get(ctx, chain[k].Hash())
+			_, eb := s2.Get(ctx, chain[k].Hash())
+			zz.Assert((ea == nil) == (eb == nil), "after all writers finish the stored headers equal those of a sequential execution")
+		}
 	}
-	if deleted {
+	if deleted && delWhole {
+		zz.Reach("deleted-whole")
+		// whatever the interleaving: the two initial headers are gone and what remains is one gap-free run
+		_, ea := s.Get(ctx, chain[0].Hash())
+		_, eb := s.Get(ctx, chain[1].Hash())
+		zz.Assert(ea != nil && eb != nil, "the deleted headers are gone")
+		tail, et := s.Tail(ctx)
+		head, eh := s.Head(ctx)
+		if et == nil && eh == nil {
+			for hh := tail.H; hh <= head.H; hh++ {
+				g, err := s.GetByHeight(ctx, hh)
+				zz.Assert(err == nil && g != nil && g.H == hh, "a tail-side DeleteRange racing with appends leaves a gap-free chain")
+			}
+		}
+	} else if deleted {
 		zz.Reach("deleted")
 		tail, err := s.Tail(ctx)
 		zz.Assert(err == nil && tail.H == chain[1].H, "Tail moved to the next header")
